@@ -583,10 +583,17 @@ func formulasIn(pk *packages.Package, fd *ast.FuncDecl, fn string, subst map[typ
 				return
 			}
 		}
-		if rhs != nil && !hasArith(rhs) && !callWithConstArg(info, rhs) && !inlinedArith(info, rhs) && !callWithArithLocal(info, rhs, fdefs) {
-			// a bare value is a formula only for accumulators (x += v)
+		if rhs != nil && !hasArith(rhs) && !callWithConstArg(info, rhs) && !inlinedArith(info, rhs) && !callWithArithLocal(info, rhs, fdefs) && !(strings.HasPrefix(target, "call:") && inlinedPipeline(info, rhs)) {
+			// a bare value is a formula only for accumulators (x += v) — and where a reviewed accumulation into an
+			// element or field (flags[vi] |= f, out.Rewards[vi] += r) is now a plain store of a variable: the store
+			// overwrites what the accumulation kept
 			if tok == token.ASSIGN {
-				return
+				if !(strings.ContainsAny(target, "[.") && tabledAccumulation(fn, target)) {
+					return
+				}
+				if tv, ok := info.Types[rhs]; ok && tv.Value != nil {
+					return
+				}
 			}
 		}
 		named, ok := exprPoly(info, rhs, nil, nil, 0)
@@ -791,7 +798,7 @@ func formulasIn(pk *packages.Package, fd *ast.FuncDecl, fn string, subst map[typ
 			if fobj := callee(info, x); fobj != nil {
 				guardNode = x
 				for i, a := range x.Args {
-					if hasArith(a) || inlinedArith(info, a) {
+					if hasArith(a) || inlinedArith(info, a) || inlinedPipeline(info, a) {
 						add(fmt.Sprintf("call:%s#%d", fobj.Name(), i), token.ASSIGN, nil, a, x.Pos())
 					}
 					liftHelper(a, fmt.Sprintf("call:%s#%d", fobj.Name(), i), nil, x.Pos())
@@ -834,6 +841,27 @@ func formulasIn(pk *packages.Package, fd *ast.FuncDecl, fn string, subst map[typ
 
 // replaceIdentToken replaces every occurrence of the identifier path `from` that stands on its own (not part of a
 // longer name or path) by `to`.
+var tabledAccumMemo map[string]bool
+
+// tabledAccumulation: the reviewed forms of (fn, target) are all accumulations (+=, |=, …).
+func tabledAccumulation(fn, target string) bool {
+	if tabledAccumMemo == nil {
+		tabledAccumMemo = map[string]bool{}
+		for _, e := range formulaTable {
+			all := len(e.named) > 0
+			for _, f := range e.named {
+				if strings.HasPrefix(f, "= ") {
+					all = false
+				}
+			}
+			if all {
+				tabledAccumMemo[e.fn+"\x00"+e.target] = true
+			}
+		}
+	}
+	return tabledAccumMemo[fn+"\x00"+target]
+}
+
 // identTokens: the identifier-like tokens of a canonical form (a.b.c counts as one token and as its head a).
 func identTokens(form string) []string {
 	isId := func(b byte) bool {
@@ -1451,6 +1479,20 @@ func ruleFormulaSpec(c *Ctx) {
 					}
 				}
 			}
+			// … unless the helper was read in place: the resolved form then no longer mentions it, and what it says is
+			// what the function computes
+			if delegates && len(f.res) == len(f.named) {
+				readThrough := true
+				for k, nm := range f.named {
+					body := strings.TrimPrefix(nm, "= ")
+					if j := strings.Index(body, "("); j > 0 && strings.Contains(f.res[k], body[:j+1]) {
+						readThrough = false
+					}
+				}
+				if readThrough {
+					delegates = false
+				}
+			}
 			if delegates {
 				verdicts[i] = verdict{status: "missing", pos: f.pos, msg: fmt.Sprintf("%s hands %s to an unexported helper whose formulas this rule cannot relate to the reviewed one {%s} (%s)", e.fn, e.target, strings.Join(e.named, " ; "), e.spec)}
 				continue
@@ -1743,6 +1785,35 @@ func ruleFormulaSpec(c *Ctx) {
 				continue
 			}
 		}
+		// the variable is now what an unexported function of the package hands back (n, err := expectedCount(…)): the
+		// formula went there with it, in a form this rule did not find — undecided, not dropped
+		if d, ok := formulaDecls[e.fn]; ok && d.fd != nil && d.fd.Body != nil {
+			fromHelper := false
+			ast.Inspect(d.fd.Body, func(n ast.Node) bool {
+				as, ok := n.(*ast.AssignStmt)
+				if !ok || len(as.Rhs) != 1 {
+					return true
+				}
+				call, ok := ast.Unparen(as.Rhs[0]).(*ast.CallExpr)
+				if !ok {
+					return true
+				}
+				g := calleeFunc(d.pk.TypesInfo, call)
+				if g == nil || g.Exported() || g.Pkg() != d.pk.Types {
+					return true
+				}
+				for _, l := range as.Lhs {
+					if id, ok := ast.Unparen(l).(*ast.Ident); ok && id.Name == e.target {
+						fromHelper = true
+					}
+				}
+				return true
+			})
+			if fromHelper {
+				verdicts[i].msg = fmt.Sprintf("%s no longer assigns {%s} to %s itself: %s is now what an unexported helper returns, whose formulas this rule did not relate to the reviewed one (%s)", e.fn, strings.Join(e.named, " ; "), e.target, e.target, e.spec)
+				continue
+			}
+		}
 		if sw := stillDeclared(e.fn, []string{e.target}, nil); len(sw) > 0 {
 			verdicts[i] = verdict{"bad", "", verdicts[i].pos, fmt.Sprintf("%s no longer assigns {%s} to %s, although %s is still a variable of the function and nothing else carries that formula: the update was dropped — spec: %s", e.fn, strings.Join(e.named, " ; "), e.target, e.target, e.spec)}
 		}
@@ -1820,6 +1891,25 @@ func inlinedArith(info *types.Info, e ast.Expr) bool {
 		return false
 	}
 	return hd.defs == nil && hasArith(hd.ret)
+}
+
+// inlinedPipeline: the same for a helper that names part of its formula in a local first (lookback := …; return epoch -
+// lookback). Only asked of call ARGUMENTS (a formula handed straight on): as the right side of an assignment such a
+// call is one step of the target's formula and is read through by the later steps.
+func inlinedPipeline(info *types.Info, e ast.Expr) bool {
+	call, ok := ast.Unparen(e).(*ast.CallExpr)
+	if !ok || polyInline == nil {
+		return false
+	}
+	f := calleeFunc(info, call)
+	if f == nil {
+		return false
+	}
+	hd, ok := polyInline[f]
+	if !ok || hd.info != info {
+		return false
+	}
+	return hd.defs != nil && hasArith(hd.ret)
 }
 
 // initOnlyDefines: an if statement's init that only introduces locals (`if flat := &flats[vi]; !flat.Slashed {`): the
